@@ -206,6 +206,21 @@ def ai_tags(rng, tier):
     for b0 in range(256):
         tags.append(bytes([b0, 0x41, 0x42, 0x43]))
         tags.append(bytes([0x41, 0x42, 0x43, b0]))
+    # the neighbourhood of every known tag: a lookup that is too generous (case folding, prefix match, stripped
+    # or normalised keys) shows exactly here - every letter-case variant, every single-byte substitution,
+    # rotations and reversals
+    known = [t for t in tags[:len(list(KnownAiScript))]]
+    for t in known:
+        for mask in range(16):
+            tags.append(bytes((c ^ 0x20) if (mask >> i) & 1 and (65 <= (c & ~0x20) <= 90) else c for i, c in enumerate(t)))
+        for pos in range(4):
+            for b in range(256):
+                tags.append(t[:pos] + bytes([b]) + t[pos + 1:])
+        tags.append(t[::-1])
+        tags.append(t[1:] + t[:1])
+        tags.append(t[:3] + b" ")
+        tags.append(b" " + t[:3])
+        tags.append(t[:3] + b"\x00")
     return tags
 
 
